@@ -275,6 +275,9 @@ def impl_oracle(line, out):
                         problems.append("reported wait %d, earliest deadline in %d" % (w, hd - t))
                     if w == 0 and (hd - t) % (1 << 32) != 0:
                         problems.append("reported wait 0 (= nothing pending) with a deadline in %d" % (hd - t))
+                    pend = [r for v in live.values() for r in v]
+                    if len(pend) == 1 and not pend[0]["taint"]:
+                        check_T(pend[0], t, hd, len(pend[0]["tx"]) - 1)
             elif kind == "q":
                 t = int(f[0])
                 ents = [] if f[1] == "-" else [tuple(int(x) for x in z.split("/")) for z in f[1].split(",")]
@@ -484,6 +487,7 @@ def main(run):
     sbad = 0
     n_in, n_out = 0, 0
     for ln, a, b in zip(sweep, sm, sc):
+        rep = True
         if ln.startswith("calcrow"):
             probs, rep = calcrow_oracle(ln, b)
             n_in += rep
@@ -499,7 +503,9 @@ def main(run):
                     sbad += 1
                     run.violation("initial timeout out of range: " + probs[0],
                                   "case: %s\nimpl : %s\nmodel: %s\n" % (ln, b, a), tag="calc%d" % sbad)
-        if a != b:
+        if a != b and (rep or not kf_wrap):
+            # (outside the representable settings the property already fails - K06-1 - and the
+            # theorems say nothing: only the oracle above looks at those rows)
             sbad += 1
             if sbad <= 3:
                 run.violation("coap_calc_timeout differs from the proved model (leaf sweep)",
